@@ -131,8 +131,8 @@ fn main() {
                         // every recipient secret in one ring, all of them checked against each other
                         let e = Password::empty();
                         let ring = pgp::composed::TheRing { secret_keys: cfg.keys.iter().filter(|k| !(cfg.enc == 1 && pool[**k].version() == KeyVersion::V6)).map(|k| &pool[*k]).collect(), key_passwords: vec![&e], message_password: pws.iter().collect(), session_keys: vec![], decrypt_options: pgp::composed::DecryptionOptions::new() };
-                        m0.decrypt_the_ring(ring, false).map(|x| x.0).map_err(|e| e.to_string())?
-                    } else if which < pws.len() { m0.decrypt_with_password(&pws[which]).map_err(|e| e.to_string())? } else { let k = cfg.keys[which - pws.len()]; m0.decrypt(&Password::empty(), &pool[k]).map_err(|e| e.to_string())? };
+                        m0.decrypt_the_ring(ring, false).map(|x| x.0).map_err(|e| format!("DECRYPT-REFUSED {e}"))?
+                    } else if which < pws.len() { m0.decrypt_with_password(&pws[which]).map_err(|e| format!("DECRYPT-REFUSED {e}"))? } else { let k = cfg.keys[which - pws.len()]; m0.decrypt(&Password::empty(), &pool[k]).map_err(|e| format!("DECRYPT-REFUSED {e}"))? };
                     let mut m2 = if m1.is_compressed() { m1.decompress().map_err(|e| e.to_string())? } else { m1 };
                     let mut out = Vec::new();
                     // uneven reads: the reader must not care
@@ -160,9 +160,16 @@ fn main() {
                     Err(e) => { all_ok = false; only_name = false; verdicts.push(format!("all secrets together: {}", &e[..e.len().min(100)])); }
                 }
             }
+            // SKESK v4 has no integrity: does one of the passwords open ANOTHER recipient's packet to a plausible, different
+            // session key?  (established here from the packets, never from the wording of an error)
+            let ambiguous = cfg.enc == 1 && pws.len() >= 2 && !all_ok && {
+                let bin: Vec<u8> = if cfg.armor { let mut o = Vec::new(); let _ = pgp::armor::Dearmor::new(&msg[..]).read_to_end(&mut o); o } else { msg.clone() };
+                let sks: Vec<_> = PacketParser::new(&bin[..]).flatten().take_while(|p| matches!(p, Packet::SymKeyEncryptedSessionKey(_) | Packet::PublicKeyEncryptedSessionKey(_))).filter_map(|p| if let Packet::SymKeyEncryptedSessionKey(s) = p { Some(s) } else { None }).collect();
+                pws.iter().any(|pw| { let opened: Vec<PlainSessionKey> = sks.iter().filter_map(|sk| guarded(|| decrypt_session_key_with_password(sk, pw).ok()).ok().flatten()).collect(); opened.len() >= 2 && opened.iter().any(|k| *k != opened[0]) })
+            };
             let cls = format!("enc{}-{}-{}{}", cfg.enc, if cfg.comp.is_some() { "comp" } else { "plain" }, if cfg.signers.is_empty() { "unsigned" } else { "signed" }, if cfg.armor { "-armor" } else { "" });
             let mut rp = rp0.clone(); if msg.len() <= 60_000 { rp.push(hx(&msg)); }
-            cx.out.case("", &[], &rp, &if all_ok { "round trip ok".to_string() } else if only_name { format!("FILE-NAME-DROPPED (given {:?}); payload and signatures ok", cfg.name) } else { verdicts.join(" | ") }, Some(all_ok), &format!("library-{cls}"));
+            cx.out.case("", &[], &rp, &if all_ok { "round trip ok".to_string() } else if only_name { format!("FILE-NAME-DROPPED (given {:?}); payload and signatures ok", cfg.name) } else { format!("{}{}", if ambiguous { "SKESK4-PASSWORD-OPENS-OTHER-PACKET: " } else { "" }, verdicts.join(" | ")) }, Some(all_ok), &format!("library-{cls}"));
             // ---- the model's reader over the same octets (bounded size)
             if msg.len() <= 40_000 {
                 let bin: Vec<u8> = if cfg.armor { let mut o = Vec::new(); if pgp::armor::Dearmor::new(&msg[..]).read_to_end(&mut o).is_err() { continue; } o } else { msg.clone() };
